@@ -71,19 +71,20 @@ Definition get_segment (st : store) (l : loc) : rres seg :=
   | None => RErr (EStorage K_SegmentOutOfBounds)
   end.
 
-(** [Segment::get_command] *)
+(** [Segment::get_command]  (the numeric range test comes first so that a huge
+    max cut from an untrusted address is never turned into a unary number) *)
 Definition get_command (s : seg) (l : loc) : option scmd :=
-  if (g_idx s =? lseg l) && (g_first s <=? lmc l)
+  if (g_idx s =? lseg l) && (g_first s <=? lmc l) && (lmc l - g_first s <? seg_len s)
   then nth_error (g_cmds s) (N.to_nat (lmc l - g_first s)) else None.
 
 (** [Segment::get_from]: the commands from the location's max cut to the end of the segment. *)
 Definition get_from (s : seg) (l : loc) : list scmd :=
-  if (g_idx s =? lseg l) && (g_first s <=? lmc l)
+  if (g_idx s =? lseg l) && (g_first s <=? lmc l) && (lmc l - g_first s <? seg_len s)
   then skipn (N.to_nat (lmc l - g_first s)) (g_cmds s) else [].
 
 (** [Storage::get_location] (exact lookup contract). *)
 Definition seg_find_addr (s : seg) (a : addr) : option loc :=
-  if g_first s <=? amc a then
+  if (g_first s <=? amc a) && (amc a - g_first s <? seg_len s) then
     match nth_error (g_cmds s) (N.to_nat (amc a - g_first s)) with
     | Some c => if c_id c =? aid a then Some (L (amc a) (g_idx s)) else None
     | None => None
